@@ -497,17 +497,25 @@ pub fn c04_state(rp: &Position, b: &Board, played: bool) -> Vec<Divergence> {
         // neighbours of this position that differ in exactly one identity component (marker removed,
         // one right removed): whenever the implementation's `==` calls two of them equal, their hashes
         // (and the bytes fed to a Hasher) must be equal too
-        let mut neighbours: Vec<Position> = vec![];
-        if rp.ep.is_some() {
+        // (neighbour, may the influence clause be applied to it?)
+        let mut neighbours: Vec<(Position, bool)> = vec![];
+        if let Some(e) = rp.ep_square() {
             let mut q = rp.clone();
             q.ep = None;
-            neighbours.push(q);
+            // a hash may fold the marker's key in only when a capture is actually possible (Polyglot
+            // style): the influence clause is applied to the marker only when a pawn stands ready
+            let rank = if rp.turn == refchess::Col::W { 4u8 } else { 3u8 };
+            let capturer = [-1i8, 1].iter().any(|d| {
+                let f = (e % 8) as i8 + d;
+                (0..8).contains(&f) && rp.at(rank * 8 + f as u8) == Some((rp.turn, refchess::Pc::P))
+            });
+            neighbours.push((q, capturer));
         }
         for i in 0..4 {
             if rp.rights[i] {
                 let mut q = rp.clone();
                 q.rights[i] = false;
-                neighbours.push(q);
+                neighbours.push((q, true));
             }
         }
         // ... and two more kinds of neighbour: the other side to move (only without a marker, so that
@@ -515,7 +523,7 @@ pub fn c04_state(rp: &Position, b: &Board, played: bool) -> Vec<Divergence> {
         if rp.ep.is_none() {
             let mut q = rp.clone();
             q.turn = rp.turn.flip();
-            neighbours.push(q);
+            neighbours.push((q, true));
         }
         let mut removed = 0;
         for sq in 0..64u8 {
@@ -527,7 +535,7 @@ pub fn c04_state(rp: &Position, b: &Board, played: bool) -> Vec<Divergence> {
                     // rights that need the removed man are dropped by the parser's validation: keep the
                     // comparison to neighbours the parser accepts as they are
                     if rp.ep.is_none() {
-                        neighbours.push(q);
+                        neighbours.push((q, true));
                         removed += 1;
                     }
                 }
@@ -546,7 +554,8 @@ pub fn c04_state(rp: &Position, b: &Board, played: bool) -> Vec<Divergence> {
                         q.board[b2.0 as usize] = Some((a.1, a.2));
                         q.rights = [false; 4];
                         if rp.rights.iter().all(|x| !*x) {
-                            neighbours.push(q);
+                            // four keys differ here: only 'equal boards hash equal' applies
+                            neighbours.push((q, false));
                             swaps += 1;
                             if swaps >= 3 {
                                 break 'outer;
@@ -556,7 +565,7 @@ pub fn c04_state(rp: &Position, b: &Board, played: bool) -> Vec<Divergence> {
                 }
             }
         }
-        for q in neighbours {
+        for (q, one_component) in neighbours {
             if let Ok(nb) = parse_board(&q.to_fen()) {
                 if nb == *b && (nb.zobrist() != b.zobrist() || hash_trait_bytes(&nb) != hash_trait_bytes(b)) {
                     d.push(Divergence::new(
@@ -566,7 +575,7 @@ pub fn c04_state(rp: &Position, b: &Board, played: bool) -> Vec<Divergence> {
                 }
                 // every component influences the hash: the keys are pairwise distinct and non-zero, so a
                 // position that differs in exactly one component cannot hash the same
-                if nb != *b && nb.zobrist() == b.zobrist() {
+                if one_component && nb != *b && nb.zobrist() == b.zobrist() {
                     d.push(Divergence::new(
                         "component-does-not-influence-hash",
                         format!("'{fen}' and '{}' differ in one component (and are unequal according to the implementation) but hash the same ({})", q.to_fen(), b.zobrist()),
